@@ -101,6 +101,52 @@ fn steps(s: &mut Src, w: &StepW, len: (usize, usize), in_future: bool, depth: us
     out
 }
 
+/// Mirror of `gen::lifecycle`: one future taken through its life by its owner (same raw slot, object and gate throughout)
+fn lifecycle(s: &mut Src, p: &Profile) -> Vec<Op> {
+    let w = &p.opw;
+    let (o, slot, g) = (s.u8(), s.u8(), s.u8());
+    let mut out = vec![];
+    let backlog = match s.weighted(&[27, 1, 1, 1]) {
+        0 => 0,
+        1 => s.range(33, 36),
+        2 => s.range(65, 68),
+        _ => s.range(130, 133),
+    };
+    for _ in 0..backlog {
+        out.push(Op::Desync { o, body: vec![], id: 0 });
+    }
+    let mut body = steps(s, &p.stepw, (0, 2), true, 0);
+    body.push(Step::AwaitGate { g });
+    body.extend(steps(s, &p.stepw, (0, 2), true, 0));
+    out.push(match s.weighted(&[w.futdesync.max(1), w.futsync, w.after]) {
+        0 => Op::FutDesync { o, body, slot, id: 0 },
+        1 => Op::FutSync { o, body, slot, id: 0 },
+        _ => Op::After { o, g, body: steps(s, &p.stepw, (0, 1), false, 0), slot, id: 0 },
+    });
+    for _ in 0..s.range(0, 4) {
+        out.push(match s.weighted(&[3, 3, 2, 2, 1]) {
+            0 => Op::PollOnce { slot },
+            1 => Op::OpenGate { g },
+            2 => Op::Yield,
+            3 => Op::Desync { o, body: steps(s, &p.stepw, (0, 1), false, 0), id: 0 },
+            _ => Op::Rewake { g },
+        });
+    }
+    match s.weighted(&[4, 3, 2, 1, 1, 2]) {
+        0 => out.push(Op::Await { slot }),
+        1 => out.push(Op::SyncWait { slot }),
+        2 => out.push(Op::DropFut { slot }),
+        3 => out.push(Op::Detach { slot }),
+        4 => {}
+        _ => {
+            let slot2 = slot.wrapping_add(64);
+            out.push(Op::FutDesync { o, body: vec![Step::Touch], slot: slot2, id: 0 });
+            out.push(Op::AwaitJoin { a: slot, b: slot2 });
+        }
+    }
+    out
+}
+
 fn op(s: &mut Src, p: &Profile, w: &OpW) -> Op {
     let ws = [
         w.desync, w.sync, w.trysync, w.futdesync, w.futsync, w.after, w.await_, w.syncwait, w.pollonce, w.dropfut, w.detach, w.release, w.opengate, w.rewake, w.waitfor, w.yield_, w.suspend, w.awaitsuspend, w.resume, w.dropresumer, w.pipein, w.pipe,
@@ -208,9 +254,18 @@ pub fn case_from_bytes(p: &Profile, data: &[u8]) -> Option<Case> {
     };
     let ncallers = s.range(p.callers.0, p.callers.1);
     let mut callers = vec![];
+    let lifecycles = p.lifecycle_pct > 0 && p.opw.pollonce > 0 && p.opw.futdesync + p.opw.futsync + p.opw.after > 0;
     for _ in 0..ncallers {
         let n = s.range(p.ops.0, p.ops.1);
-        callers.push((0..n).map(|_| op(s, p, &p.opw)).collect::<Vec<Op>>());
+        let mut prog: Vec<Op> = vec![];
+        for _ in 0..n {
+            if lifecycles && s.pct(p.lifecycle_pct) {
+                prog.extend(lifecycle(s, p));
+            } else {
+                prog.push(op(s, p, &p.opw));
+            }
+        }
+        callers.push(prog);
     }
     let nwakers = s.range(p.wakers.0, p.wakers.1);
     let wakers = (0..nwakers)
